@@ -33,22 +33,32 @@ TRUSTED = [
     "BaseIOStream read path abstracted to byte counts (Stream.tryRead/onReadable); the transport is "
     "core/faketransport with all arrived bytes handed over in one read",
     "request head parsing (tornado.httputil) — the harness tells the model header-block length and body reads",
+    "kind app: tornado.web routing, _HandlerDelegate and RequestHandler._execute are exercised and abstracted to the same script as a "
+    "raw delegate; the order of `respond` and `onclose` inside one loop drain is normalised (a streaming handler's method runs one "
+    "iteration after delegate.finish())",
+    "data_received calls made by the abandoned body reader after a body timeout (see ASSUMPTIONS) are not compared with the model",
 ]
 ASSUMPTIONS = [
     "requests are generated from a grammar (GET/HEAD/POST/PUT, HTTP/1.0|1.1, Connection variants, Content-Length or "
     "chunked bodies <= 3 chunks, four malformed framings); no Expect: 100-continue, no gzip request bodies",
     "all response writes are accepted by the transport at once (no blocked sends); responses are written in one go",
-    "body_timeout is only combined with delegates whose data_received is synchronous or raises (after a body timeout "
-    "tornado leaves the body reader task running; its late data_received calls are outside the model)",
+    "after a body timeout that lands while an asynchronous data_received is pending tornado leaves the body reader task running; the "
+    "data_received calls it makes later from already buffered bytes (after on_connection_close) are outside the model: they are "
+    "removed from the implementation's trace before the comparison and kept for the oracle",
     "a transport reset (ECONNRESET) is classified like IOStream does (treated as close)",
 ]
-RULE = ("pipelines of 1-3 grammar-built requests x delegate scripts (sync/async/detach/early-finish/raising) x event lists "
+RULE = ("pipelines of 1-3 grammar-built requests x application kind (60% scripted raw HTTPMessageDelegate, 15% HTTPServer request callback, "
+        "25% real tornado.web.Application with ordinary and @stream_request_body RequestHandlers) x delegate scripts "
+        "(sync/async/detach/early-finish/raising) x event lists "
         "(byte arrival at exact offsets, EOF/reset/timeout/close at every cut point, settle/respond events); "
         "non-trivial = a delegate received headers and the peer or a timeout or the server ended the exchange before the pipeline "
         "was fully served, or >=2 requests were served")
 EXHAUSTIVE = {"quick": False, "thorough": False}
 CLAUSE_CAVEATS = [
-    'the tie drives raw delegates and HTTPServer request callbacks and a real tornado.web Application incl. stream_request_body handlers; body_timeout combined with an asynchronous data_received is outside the generated domain',
+    'body_timeout landing while an asynchronous data_received is pending is generated and compared (exactly-once close, responses, stream '
+    'state), except for one thing the model does not have: the abandoned body reader, once the awaitable settles, delivers bytes that were '
+    'already buffered through further data_received calls after on_connection_close; these entries are dropped from the comparison, so '
+    'data_prefix / delivered_le_sent do not cover them (the oracle does: count and byte prefix are checked on the full trace of every case)',
     'data_prefix counts bytes against the body the harness sent (byte counts, not byte contents); contents are compared by the tie',
 ]
 CLAUSES = {
@@ -96,19 +106,36 @@ def _rand_script(rng, kind, bt):
     if kind == "cb":
         return {"h": "sync", "d": "sync", "f": rng.choice(["now", "now", "later", "later", "raise"]),
                 "resp": rng.choice(["cl", "cl", "stream", "s204", "s304"]), "cc": rng.choice(["finish", "never"]), "actFin": True}
+    if kind == "app":
+        # a real tornado.web.Application: an ordinary RequestHandler (created at finish(); body buffered by _HandlerDelegate) or a
+        # @stream_request_body handler (created at headers_received; prepare() plays the headers script)
+        resp = rng.choice(["cl", "cl", "stream", "s204", "s304"])
+        if rng.random() < 0.35:
+            sc = {"h": "sync", "d": "sync", "f": rng.choice(["now", "later"]), "resp": resp, "cc": "finish", "actFin": True}
+        else:
+            d = rng.choice(["sync"] * 4 + ["async"] * 3)
+            sc = {"h": rng.choice(["sync"] * 5 + ["async"] * 4 + ["early"] * 2 + ["detach"]), "d": d,
+                  "f": rng.choice(["now", "later"]), "resp": resp, "cc": "headers", "actFin": False}
+        return sc
     h = rng.choice(["sync"] * 5 + ["async"] * 4 + ["early"] * 2 + ["detach", "raise"])
     d = rng.choice(["sync"] * 4 + ["async"] * 3 + ["raise"])
-    if bt and d == "async":
-        d = "sync"
     return {"h": h, "d": d, "f": rng.choice(["now"] * 3 + ["later"] * 3 + ["raise"]),
             "resp": rng.choice(["cl", "cl", "stream", "s204", "s304"]),
             "cc": rng.choice(["headers", "headers", "finish", "never"]), "actFin": False}
 
 
+def _rand_kind(rng):
+    k = rng.random()
+    return "raw" if k < 0.6 else "cb" if k < 0.75 else "app"
+
+
 def _rand_req(rng, kind, bt):
     method = rng.choice(METHODS)
-    return {"ver": rng.choice(["1.1", "1.1", "1.0"]), "conn": rng.choice(CONNS[:4] + CONNS), "method": method,
-            "body": _rand_body(rng, method), "script": _rand_script(rng, kind, bt)}
+    r = {"ver": rng.choice(["1.1", "1.1", "1.0"]), "conn": rng.choice(CONNS[:4] + CONNS), "method": method,
+         "body": _rand_body(rng, method), "script": _rand_script(rng, kind, bt)}
+    if kind == "app":
+        r["path"] = I.app_path(r["script"])
+    return r
 
 
 def boundaries(case):
@@ -192,17 +219,44 @@ def _cut_cases(rng, base, every=True, sample=None):
             yield {**base, "events": pre + mid + [en] + rng.choice(TAILS)}
 
 
+def _bt_async_cases(rng):
+    """the body timeout fires while an asynchronous data_received is pending: feed the head and part of the body (the delegate now
+    awaits), optionally more bytes, `timer`, then settle / respond / feed tails"""
+    kind = rng.choice(["raw", "raw", "app"])
+    reqs = [_rand_req(rng, kind, True) for _ in range(rng.choice([1, 1, 2]))]
+    r = reqs[0]
+    r["body"] = rng.choice([["cl", 5], ["cl", 9], ["chunked", [2, 3]], ["chunked", [3, 7, 1]], ["chunked", [16, 1]]])
+    r["script"] = {**r["script"], "d": "async", "h": rng.choice(["sync", "sync", "async"]), "cc": "headers", "actFin": False}
+    if kind == "app":
+        if r["script"]["f"] == "raise":
+            r["script"]["f"] = "later"
+        r["path"] = I.app_path(r["script"])
+    base = {"kind": kind, "params": {"nka": rng.random() < 0.2, "bt": True, "xh": rng.random() < 0.3}, "reqs": reqs}
+    head, payload, _ = I.wire_request(r)
+    total = len(I.wire_all(base))
+    for k in range(len(head) + 1, len(head) + len(payload) + 1):
+        pre = [["feed", k]]
+        if r["script"]["h"] == "async":
+            pre.append(["resH"])
+        more = rng.choice([[], [], [["feed", rng.choice([1, 2, 5, total])]], [["feed", total]]])
+        tail = rng.choice([[["resD"]], [["resD"], ["resD"], ["respond"]], [["respond"], ["resD"], ["resD"]],
+                           [["feed", total], ["resD"], ["resD"], ["resD"]], [["eof"], ["resD"]], [["closeall"], ["resD"], ["resD"]]])
+        yield {**base, "events": pre + more + [["timer"]] + tail}
+
+
 def gen_cases(rng, tier):
     n_rand = {"quick": 1500, "thorough": 25000, "search": 3000}[tier]
     n_cut = {"quick": 60, "thorough": 400, "search": 100}[tier]
+    for _ in range({"quick": 25, "thorough": 400, "search": 40}[tier]):
+        yield from _bt_async_cases(rng)
     for _ in range(n_cut):
-        kind = "raw" if rng.random() < 0.8 else "cb"
+        kind = _rand_kind(rng)
         bt = rng.random() < 0.4
         base = {"kind": kind, "params": {"nka": rng.random() < 0.2, "bt": bt, "xh": rng.random() < 0.3},
                 "reqs": [_rand_req(rng, kind, bt) for _ in range(rng.choice([1, 1, 2]))]}
         yield from _cut_cases(rng, base, every=(tier == "thorough"), sample=None if tier == "thorough" else 25)
     for _ in range(n_rand):
-        kind = "raw" if rng.random() < 0.8 else "cb"
+        kind = _rand_kind(rng)
         bt = rng.random() < 0.4
         base = {"kind": kind, "params": {"nka": rng.random() < 0.2, "bt": bt, "xh": rng.random() < 0.3},
                 "reqs": [_rand_req(rng, kind, bt) for _ in range(rng.choice([1, 2, 2, 3]))]}
@@ -264,6 +318,22 @@ def merge_data(items):
     return out
 
 
+def _canon(case, items):
+    """kind "app", @stream_request_body handler whose HTTP method responds at once: `_HandlerDelegate.finish()` only resolves
+    `request._body_future`; the handler task writes the response one loop iteration later, i.e. after `_read_message` has
+    run on to its next await — which, when the stream is already closed, includes the end of the server loop
+    (`onclose`).  The model writes the response inside `finish()`.  The relative order of `respond i` and `onclose` inside
+    one drain is the only observable difference and no clause of the property is about it: both sides are normalised to
+    `respond` first."""
+    if case["kind"] != "app":
+        return items
+    out = [list(x) for x in items]
+    for k in range(len(out) - 1):
+        if out[k] == ["onclose"] and out[k + 1][0] == "respond":
+            out[k], out[k + 1] = out[k + 1], out[k]
+    return out
+
+
 def _framing(status, chunked, has_cl):
     if status == 400:
         return "bare"
@@ -290,7 +360,7 @@ def model_result(case, replies):
                 responses.append([it[1], it[2], _framing(it[1], it[3], it[4]), True])
             else:
                 tr.append(it)
-        return merge_data(tr)
+        return _canon(case, merge_data(tr))
     first = split(per[0][0])
     for items, closed in per[1:n + 1]:
         steps.append([split(items), closed])
@@ -299,17 +369,36 @@ def model_result(case, replies):
             "responses": responses}
 
 
+def _late_data(case, log):
+    """indices of the `data i n` entries produced by the abandoned body reader: body_timeout fired while an asynchronous
+    data_received of request i was pending (`close i` delivered, stream closed, `_read_message` returned); when the awaitable
+    settles later the orphaned `_read_body` task goes on reading what is already buffered and calls data_received again.
+    The model stops at the timeout, so these entries are left out of the *comparison* (the oracle still gets the full log)."""
+    if not case["params"].get("bt"):
+        return set()
+    closed, out = set(), set()
+    for k, it in enumerate(log):
+        if it[0] == "close":
+            closed.add(it[1])
+        elif it[0] == "data" and it[1] in closed and it[1] < len(case["reqs"]) and case["reqs"][it[1]]["script"]["d"] == "async":
+            out.add(k)
+    return out
+
+
 def impl_view(case, impl):
     log, marks = impl["log"], impl["marks"]
-    steps, prev = [], None
-    first_end = marks[0][0] if marks else impl["pre_log"]
+    late = _late_data(case, log)
+
+    def seg(a, b):
+        return _canon(case, merge_data([log[k] for k in range(a, b if b is not None else len(log)) if k not in late]))
+    steps = []
     # the log before the first event (start 0) belongs to "init"; marks[k][0] = log length after event k
     init_len = 1 if log and log[0] == ["start", 0] else 0
     prev = init_len
     for ln, wr, closed in marks:
-        steps.append([merge_data(log[prev:ln]), closed])
+        steps.append([seg(prev, ln), closed])
         prev = ln
-    return {"init": merge_data(log[:init_len]), "steps": steps, "shutdown": merge_data(log[prev:]),
+    return {"init": merge_data(log[:init_len]), "steps": steps, "shutdown": seg(prev, None),
             "done": impl["shutdown_done"] and impl["conns_left"] == 0, "closed": impl["closed"],
             "responses": impl["responses"]}
 
@@ -360,6 +449,8 @@ def stats(case, impl):
     out = ["kind:" + case["kind"], "reqs:%d" % len(case["reqs"]), "phase:" + _phase(case, impl)]
     for it in impl["log"]:
         out.append("ev:" + it[0])
+    if _late_data(case, impl["log"]):
+        out.append("ev:data-after-close(orphan reader)")
     for e in case["events"]:
         out.append("op:" + e[0])
     for r in case["reqs"]:
